@@ -671,6 +671,27 @@ func (vc *VC) execSwitch(x *ast.SwitchStmt, st *State, label string) *State {
 	var outs []*State
 	rest := st // state in which no earlier case matched
 	var deflt *ast.CaseClause
+	// a clause ending in `fallthrough` continues with the statements of the
+	// clause written after it
+	bodyOf := func(i int) []ast.Stmt {
+		var out []ast.Stmt
+		for ; i < len(x.Body.List); i++ {
+			b := x.Body.List[i].(*ast.CaseClause).Body
+			if n := len(b); n > 0 {
+				if br, ok := b[n-1].(*ast.BranchStmt); ok && br.Tok == token.FALLTHROUGH {
+					out = append(out, b[:n-1]...)
+					continue
+				}
+			}
+			out = append(out, b...)
+			break
+		}
+		return out
+	}
+	clauseIdx := map[*ast.CaseClause]int{}
+	for i, cs := range x.Body.List {
+		clauseIdx[cs.(*ast.CaseClause)] = i
+	}
 	for _, cs := range x.Body.List {
 		cc := cs.(*ast.CaseClause)
 		if cc.List == nil {
@@ -689,13 +710,13 @@ func (vc *VC) execSwitch(x *ast.SwitchStmt, st *State, label string) *State {
 		c := vc.define("case", tOr(alts...))
 		body := rest.clone()
 		body.pc = vc.definePC(tAnd(rest.pc, c))
-		outs = append(outs, vc.execBlock(cc.Body, body))
+		outs = append(outs, vc.execBlock(bodyOf(clauseIdx[cc]), body))
 		nrest := rest.clone()
 		nrest.pc = vc.definePC(tAnd(rest.pc, tNot(c)))
 		rest = nrest
 	}
 	if deflt != nil {
-		outs = append(outs, vc.execBlock(deflt.Body, rest))
+		outs = append(outs, vc.execBlock(bodyOf(clauseIdx[deflt]), rest))
 	} else {
 		outs = append(outs, rest)
 	}
